@@ -380,7 +380,7 @@ func (g *Gen) Number() *Schema {
 
 // Enum value pools.
 var (
-	EnumStrings = []string{"red", "green", "blue", "amber", "dark red", "x", "1", "true", "null", "é"}
+	EnumStrings = []string{"red", "green", "blue", "amber", "dark red", "x", "1", "true", "null", "é", "100% cotton", "%d", "a%20b", "q\"uote", "back\\slash", "tick`s", "100%"}
 	// EnumStringsHazard adds values whose constant names collide after identifier normalisation (F26).
 	EnumStringsHazard = []string{"red", "Red", "dark red", "dark-red", "a b", "a-b", "x"}
 	EnumInts          = []int64{0, 1, 2, 3, 7, -1, 42, 100}
@@ -592,7 +592,13 @@ func (g *Gen) addDefault(p *Schema) {
 		if p.Format != "" && !g.O.Hazard {
 			return
 		}
-		for _, c := range []string{"abc", "ab", "a", "abcd", "foo1z", "12", "Abc", "x@y", "12-ab"} {
+		cands := []string{"abc", "ab", "a", "abcd", "foo1z", "12", "Abc", "x@y", "12-ab"}
+		if r.Chance(0.3) {
+			// defaults that are hostile to format strings and Go string literals
+			cands = append([]string{"%Y-%m-%d", "a%20b", "100%", "%d%s", "q\"t", "b\\s", "t`k", "nl\nx"}, cands...)
+			r.Shuffle(8, func(i, j int) { cands[i], cands[j] = cands[j], cands[i] })
+		}
+		for _, c := range cands {
 			if okString(p, c) {
 				p.Default, p.HasDefault = c, true
 				return
